@@ -136,4 +136,18 @@ def firstSome (l : List (Option String)) : Option String :=
 
 def check (ok : Bool) (msg : String) : Option String := if ok then none else some msg
 
+def unesc (s : String) : List Nat :=
+  if s == "%" then [] else
+  let rec go : List Char → List Nat
+    | '%' :: a :: b :: rest =>
+      match hexDigit a, hexDigit b with
+      | some x, some y => (x * 16 + y) :: go rest
+      | _, _ => 37 :: go (a :: b :: rest)
+    | c :: rest => (String.singleton c).toUTF8.toList.map (·.toNat) ++ go rest
+    | [] => []
+  go s.toList
+
+def unescStr (s : String) : String := String.ofList ((unesc s).map Char.ofNat)
+
+
 end Drv
